@@ -2,6 +2,7 @@ import GBProofs.ContractionLaws
 import GBProofs.BlockContraction
 import GBProofs.ArrayContraction
 import GBProofs.ArrayContraction14
+import GBProofs.ArrayAsym
 /-!
 # C13 — contractions behave as the linear combinations they denote
 
